@@ -1,4 +1,5 @@
 import AfkakProofs.Producer.ExactlyOnce
+import AfkakProofs.Producer.OneFlight
 /-! C01 "eventually": a batch in flight cannot go on unresolved for ever - if the environment keeps answering
 (the client completes the request in flight, the retry timer fires), the batch resolves after at most
 `2·(max_req_attempts − _req_attempts) + 1` answers. -/
@@ -102,6 +103,207 @@ theorem run_unresolved_bound (cfg : Cfg) (pre evs : List Ev)
     (h : unresolvedChain cfg (run cfg (St.init cfg) pre).1 evs) :
     evs.length ≤ budget cfg (run cfg (St.init cfg) pre).1 := by
   apply unresolved_bound cfg evs _ _ h
+  have : ∀ (evs : List Ev) (st : St), (∃ t, Rel cfg st t) → ∃ t, Rel cfg (run cfg st evs).1 t := by
+    intro evs
+    induction evs with
+    | nil => intro st h; exact h
+    | cons e rest ih =>
+      intro st ⟨t, ht⟩
+      simp only [run]
+      exact ih _ ⟨_, (rel_step cfg st t (snapOf st) e ht).1⟩
+  exact this pre _ ⟨_, rel_init cfg⟩
+
+/-! ### … with anything else going on in between (audit C01-5)
+
+The chain above lets the environment do nothing but answer.  Real runs interleave new sends, cancels, ticks, stray
+timers, metadata changes with the answers; none of those touches the batch in flight, so the bound is on the number
+of ANSWERS in an arbitrary run along which the batch stays unresolved. -/
+
+/-- is `e` the answer the batch in flight waits for (the client's valid result for THE request in flight; THE
+    retry timer)? -/
+def isAnswer (st : St) (e : Ev) : Bool :=
+  match st.phase, e with
+  | .sending rid b, .produceDone k r => k == rid && validResult b r
+  | .retryWait tid _ _, .timer t => t == tid
+  | _, _ => false
+
+/-- the answers among the events of a run -/
+def answerCount (cfg : Cfg) : St → List Ev → Nat
+  | _, [] => 0
+  | st, e :: es => (if isAnswer st e then 1 else 0) + answerCount cfg (step cfg st e).1 es
+
+/-- a run - ANY events except `stop()` - along which the batch in flight stays unresolved: at every step a request
+    is out or a retry is pending, and no answer of the client resolves the batch -/
+def unresolvedRun (cfg : Cfg) : St → List Ev → Prop
+  | _, [] => True
+  | st, e :: es =>
+    (match st.phase with
+      | .sending rid b => ∀ r, e = .produceDone rid r → validResult b r = true → (handleSendResponse cfg st b r).2.2 = false
+      | .retryWait _ _ _ => True
+      | _ => False) ∧ (∀ w p m, e ≠ .stop w p m) ∧ unresolvedRun cfg (step cfg st e).1 es
+
+/-- the same, decidably (for examples) -/
+def unresolvedRunB (cfg : Cfg) : St → List Ev → Bool
+  | _, [] => true
+  | st, e :: es =>
+    (match st.phase, e with
+      | _, .stop .. => false
+      | .sending rid b, .produceDone k r => !(k == rid && validResult b r) || !(handleSendResponse cfg st b r).2.2
+      | .sending _ _, _ => true
+      | .retryWait _ _ _, _ => true
+      | _, _ => false) && unresolvedRunB cfg (step cfg st e).1 es
+
+theorem unresolvedRunB_sound (cfg : Cfg) (evs : List Ev) (st : St) (h : unresolvedRunB cfg st evs = true) :
+    unresolvedRun cfg st evs := by
+  induction evs generalizing st with
+  | nil => trivial
+  | cons e rest ih =>
+    simp only [unresolvedRunB, Bool.and_eq_true] at h
+    obtain ⟨h1, h2⟩ := h
+    refine ⟨?_, ?_, ih _ h2⟩
+    · cases hp : st.phase with
+      | idle => rw [hp] at h1; cases e <;> simp at h1
+      | lookups ls => rw [hp] at h1; cases e <;> simp at h1
+      | retryWait tid b tps => trivial
+      | sending rid b =>
+        intro r he hv
+        subst he
+        rw [hp] at h1
+        simp only [beq_self_eq_true, hv, Bool.and_self, Bool.not_true, Bool.false_or, Bool.not_eq_true'] at h1
+        exact h1
+    · intro w p m he; subst he
+      cases hp : st.phase <;> (rw [hp] at h1; simp at h1)
+
+/-- an event that is no answer (and not `stop`) leaves the batch in flight as it is -/
+theorem busy_frame (cfg : Cfg) (st : St) (e : Ev) (hb : (∃ rid b, st.phase = .sending rid b) ∨ ∃ tid b tps, st.phase = .retryWait tid b tps)
+    (hna : isAnswer st e = false) (hns : ∀ w p m, e ≠ .stop w p m) :
+    (step cfg st e).1.phase = st.phase ∧ (step cfg st e).1.attempts = st.attempts := by
+  have hidle : st.phase ≠ .idle := by
+    rcases hb with ⟨rid, b, hp⟩ | ⟨tid, b, tps, hp⟩ <;> (rw [hp]; intro hc; cases hc)
+  have hz : ∀ tid, (zombieTimer st tid).1.phase = st.phase ∧ (zombieTimer st tid).1.attempts = st.attempts := by
+    intro tid; simp only [zombieTimer]; split <;> exact ⟨rfl, rfl⟩
+  cases e with
+  | send sid topic key msgs =>
+    simp only [step]
+    split
+    · exact ⟨rfl, rfl⟩
+    · split
+      · exact ⟨rfl, rfl⟩
+      · simp only [doSend]
+        rw [checkSendBatch_busy cfg _ (by simpa [enqueue] using hidle)]
+        exact ⟨rfl, rfl⟩
+  | cancel sid =>
+    simp only [step]; split
+    · simp only [cancelSend]; repeat' split
+      all_goals exact ⟨rfl, rfl⟩
+    · exact ⟨rfl, rfl⟩
+  | tick =>
+    simp only [step]; split
+    · rw [sendBatch_busy cfg st hidle]; exact ⟨rfl, rfl⟩
+    · exact ⟨rfl, rfl⟩
+  | timer tid =>
+    rcases hb with ⟨rid, b, hp⟩ | ⟨t, b, tps, hp⟩
+    · simp only [step, hp]; rw [← hp]; exact hz tid
+    · have hne : t ≠ tid := by
+        intro hc; subst hc
+        simp [isAnswer, hp] at hna
+      simp only [step, hp, hne, if_false]; rw [← hp]; exact hz tid
+  | advance dt => exact ⟨rfl, rfl⟩
+  | metaSet topic err parts => exact ⟨rfl, rfl⟩
+  | metaReset topics => exact ⟨rfl, rfl⟩
+  | metaWipe => exact ⟨rfl, rfl⟩
+  | metaDone r res =>
+    rcases hb with ⟨rid, b, hp⟩ | ⟨t, b, tps, hp⟩ <;> simp [step, hp]
+  | produceDone k r =>
+    rcases hb with ⟨rid, b, hp⟩ | ⟨t, b, tps, hp⟩
+    · have : (rid == k && validResult b r) = false := by
+        simp only [isAnswer, hp] at hna
+        cases hv : validResult b r with
+        | false => simp
+        | true =>
+          rw [hv] at hna
+          simp only [Bool.and_true, beq_eq_false_iff_ne, ne_eq] at hna ⊢
+          exact fun hc => hna hc.symm
+      have h2 : (decide (rid = k) && validResult b r) = false := by
+        cases hv : validResult b r with
+        | false => simp
+        | true =>
+          rw [hv] at this
+          simp only [Bool.and_true, beq_eq_false_iff_ne, ne_eq, decide_eq_false_iff_not] at this ⊢
+          exact this
+      simp [step, hp, h2]
+    · simp [step, hp]
+  | stop w p m => exact absurd rfl (hns w p m)
+
+/-- **"Eventually", with interleaving**: along ANY run (sends, cancels, ticks, stray timers, metadata changes,
+    invalid or stale client results in between) during which the batch in flight stays unresolved, the environment
+    can have answered it (the client's valid result for the request in flight, the retry timer) at most `budget`
+    times: the next answer resolves the batch. -/
+theorem answers_bound (cfg : Cfg) (evs : List Ev) (st : St) (hr : ∃ t, Rel cfg st t)
+    (h : unresolvedRun cfg st evs) : answerCount cfg st evs ≤ budget cfg st := by
+  induction evs generalizing st with
+  | nil => exact Nat.zero_le _
+  | cons e rest ih =>
+    obtain ⟨t, ht⟩ := hr
+    obtain ⟨h1, hns, h2⟩ := h
+    have hr' : ∃ t', Rel cfg (step cfg st e).1 t' := ⟨_, (rel_step cfg st t (snapOf st) e ht).1⟩
+    have ih' := ih _ hr' h2
+    simp only [answerCount]
+    have hb : (∃ rid b, st.phase = .sending rid b) ∨ ∃ tid b tps, st.phase = .retryWait tid b tps := by
+      cases hp : st.phase with
+      | idle => rw [hp] at h1; cases h1
+      | lookups ls => rw [hp] at h1; cases h1
+      | sending rid b => exact Or.inl ⟨rid, b, rfl⟩
+      | retryWait tid b tps => exact Or.inr ⟨tid, b, tps, rfl⟩
+    by_cases ha : isAnswer st e = true
+    · rw [if_pos ha]
+      cases hp : st.phase with
+      | idle => rw [hp] at h1; cases h1
+      | lookups ls => rw [hp] at h1; cases h1
+      | sending rid b =>
+        rw [hp] at h1
+        cases e with
+        | produceDone k r =>
+          simp only [isAnswer, hp, Bool.and_eq_true, beq_iff_eq] at ha
+          obtain ⟨hk, hv⟩ := ha
+          subst hk
+          have hres := h1 r rfl hv
+          have hstep : step cfg st (.produceDone k r) = finish cfg (handleSendResponse cfg st b r) := by
+            simp [step, hp, hv]
+          obtain ⟨_, hd⟩ := handleSendResponse_spec cfg st b r
+          generalize hg : (handleSendResponse cfg st b r).2.2 = res at hd hres
+          subst hres
+          cases hd with
+          | retry d1 _ d3 d4 =>
+            have hfin : finish cfg (handleSendResponse cfg st b r) = ((handleSendResponse cfg st b r).1, (handleSendResponse cfg st b r).2.1) := by
+              simp [finish, hg]
+            rw [hstep, hfin] at ih' ⊢
+            simp only [budget, d1, d3] at ih'
+            simp only [budget, hp]
+            omega
+        | _ => simp [isAnswer, hp] at ha
+      | retryWait tid b tps =>
+        cases e with
+        | timer t' =>
+          simp only [isAnswer, hp, beq_iff_eq] at ha
+          subst ha
+          have hatt := (ht.retrying t' b tps hp).att
+          have hstep : step cfg st (.timer t') = doRetry st b tps := by simp [step, hp]
+          rw [hstep] at ih' ⊢
+          simp only [budget, doRetry] at ih' ⊢
+          simp only [hp]
+          omega
+        | _ => simp [isAnswer, hp] at ha
+    · rw [if_neg ha]
+      obtain ⟨f1, f2⟩ := busy_frame cfg st e hb (by simpa using ha) hns
+      have : budget cfg (step cfg st e).1 = budget cfg st := by simp only [budget, f1, f2]
+      rw [this] at ih'
+      omega
+
+theorem run_answers_bound (cfg : Cfg) (pre evs : List Ev)
+    (h : unresolvedRun cfg (run cfg (St.init cfg) pre).1 evs) :
+    answerCount cfg (run cfg (St.init cfg) pre).1 evs ≤ budget cfg (run cfg (St.init cfg) pre).1 := by
+  apply answers_bound cfg evs _ _ h
   have : ∀ (evs : List Ev) (st : St), (∃ t, Rel cfg st t) → ∃ t, Rel cfg (run cfg st evs).1 t := by
     intro evs
     induction evs with
